@@ -131,3 +131,69 @@ func VfCrashVersioned() {
 		zzvf.Assert(zzvf.BytesEq(b, oldBody), "previous-version-content-intact-after-crash")
 	}
 }
+
+// VfInterleaveHead: C05 for HEAD – an overwriting PutObject (body of 0..2 symbolic bytes) or a DeleteObject runs entirely at
+// one file-system step of a HeadObject on the same key. A successful HEAD reports the length and ETag of one write (the old
+// object or the new one), never the length of one with the ETag of the other; an overwritten key never reads as missing.
+func VfInterleaveHead() {
+	vfWorld()
+	zzvfos.M.OTmpfile = zzvf.Choice("otmpfile_supported", 2) == 1
+	p := vfNewPosix(vfConfig{})
+	q := vfNewPosix(vfConfig{})
+	vfMustBucket(p, "bkt")
+	key := "k"
+	one := int64(1)
+	oldBody := []byte("O")
+	_, err := p.PutObject(vfCtx(), s3response.PutObjectInput{Bucket: vfStr("bkt"), Key: &key, Body: bytes.NewReader(oldBody), ContentLength: &one})
+	zzvf.Assert(err == nil, "setup-old-object")
+	newBody := zzvf.Bytes("new_body", 2)
+	newLen := int64(len(newBody))
+	isDelete := zzvf.Choice("writer_is_delete", 2) == 1
+	var wErr error
+	var h *s3.HeadObjectOutput
+	var hErr error
+	fired := vfNestAt(40, func() {
+		if isDelete {
+			_, wErr = q.DeleteObject(vfCtx(), &s3.DeleteObjectInput{Bucket: vfStr("bkt"), Key: &key})
+		} else {
+			_, wErr = q.PutObject(vfCtx(), s3response.PutObjectInput{Bucket: vfStr("bkt"), Key: &key, Body: bytes.NewReader(newBody), ContentLength: &newLen})
+		}
+	}, func() { h, hErr = p.HeadObject(vfCtx(), &s3.HeadObjectInput{Bucket: vfStr("bkt"), Key: &key}) })
+	zzvf.Assume(fired)
+	zzvf.Reach("interleaved")
+	zzvf.Assert(wErr == nil, "writer-succeeds")
+	if hErr != nil {
+		zzvf.Assert(isDelete, "overwritten-key-never-reads-as-missing")
+		return
+	}
+	zzvf.Assert(h.ETag != nil && h.ContentLength != nil, "head-has-etag-and-length")
+	if h.ETag == nil || h.ContentLength == nil {
+		return
+	}
+	isOld := zzvf.And(*h.ETag == vfQuotedMD5(oldBody), *h.ContentLength == 1)
+	isNew := zzvf.And(*h.ETag == vfQuotedMD5(newBody), *h.ContentLength == newLen)
+	if isDelete {
+		zzvf.Assert(isOld, "head-describes-one-complete-write")
+	} else {
+		zzvf.Assert(zzvf.Or(isOld, isNew), "head-describes-one-complete-write")
+	}
+}
+
+// vfNestAt runs outer and, before its chosen file-system step, inner (once); it reports whether inner ran.
+func vfNestAt(maxSteps int, inner, outer func()) bool {
+	at := zzvf.Choice("at_step", maxSteps)
+	zzvf.Bound("steps_max", maxSteps)
+	start := zzvfos.M.Steps
+	fired := false
+	zzvfos.M.StepHook = func(opname, path string) {
+		if !fired && zzvfos.M.Steps-start == at+1 {
+			fired = true
+			zzvfos.M.StepHook = nil
+			zzvf.Trace("other operation runs before " + opname + " " + path)
+			inner()
+		}
+	}
+	outer()
+	zzvfos.M.StepHook = nil
+	return fired
+}
